@@ -450,6 +450,27 @@ def _task_incremental(task):
     return res
 
 
+def _task_names(task):
+    """interface names that are textually related to the standard ones the
+    library always adds (a prefix, a substring, an extension): user
+    interfaces are user interfaces whatever they are called"""
+    quick = task
+    res = core.Result()
+    base = [d for d in definitions(quick)
+            if d['methods'] and d['signals']][:2]
+    names = ['org.freedesktop.DBus', 'org.freedesktop', 'freedesktop.DBus',
+             'org.freedesktop.DBus.Prop', 'org.freedesktop.DBus.PeerX',
+             'org.freedesktop.DBus.Properties.Extra', 'DBus.Peer',
+             'org.freedesktop.DBus.ObjectManage']
+    for d in base:
+        for nm in names:
+            d2 = dict(d, name=nm)
+            check_object(res, [d2])
+            check_object(res, [d2], (), False)
+            res.count('nontrivial')
+    return res
+
+
 def _task_hierarchy(task):
     """objects of a class hierarchy (each level adding an interface) and a
     plain DBusObject, introspected in every order: each XML lists exactly
@@ -551,6 +572,7 @@ def run(ctx):
     ctx.map(_task_multi, [(ctx.quick, i, n) for i in range(n)])
     ctx.map(_task_incremental, [(ctx.quick, i, n) for i in range(n)])
     ctx.map(_task_hierarchy, [ctx.quick])
+    ctx.map(_task_names, [ctx.quick])
     ctx.bounds = {'signature_pool': len(pool)}
 
 
